@@ -30,7 +30,9 @@ pub fn leaf_alphabet() -> Vec<String> {
 }
 
 pub const SMALL_LEAVES: &[&str] = &["6548656c6c6f", "01", "63426f62", "656b6e6f7773", "f5", "4401020304"];
-pub const KNOWN_VALUES: &[u64] = &[1, 3, 4, 5, 6, 15, 16, 50, 51, 52, 0, 1000, u64::MAX];
+pub const KNOWN_VALUES: &[u64] = &[1, 3, 4, 5, 6, 15, 16, 50, 51, 52, 0, 1000, u64::MAX,
+    // every boundary of the CBOR head sizes
+    23, 24, 255, 256, 65535, 65536, 4294967295, 4294967296];
 
 pub struct GenCfg {
     pub max_depth: usize,
